@@ -160,21 +160,63 @@ var subC01 = harness.NewSub(subC01Name, func(c c01Case, _ harness.Dialect) error
 // c01Reuse: a decoder must not panic (or hang, or over-allocate) whatever its receiver held
 // before: A is decoded first (outcome ignored), then B into the same receiver.
 type c01Reuse struct {
-	Kind m.Kind
+	Kind m.Kind `json:",omitempty"`
+	Sub  string `json:",omitempty"` // an exported sub-decoder instead of a packet type
 	A, B m.Bytes
 }
 
+// c01SubDecoders: the sub-structure decoders, each bound to ONE receiver that is reused.
+func c01SubDecoder(name string) func(b []byte) error {
+	switch name {
+	case "Header":
+		r := new(rtcp.Header)
+		return r.Unmarshal
+	case "ReceptionReport":
+		r := new(rtcp.ReceptionReport)
+		return r.Unmarshal
+	case "SourceDescriptionChunk":
+		r := new(rtcp.SourceDescriptionChunk)
+		return r.Unmarshal
+	case "SourceDescriptionItem":
+		r := new(rtcp.SourceDescriptionItem)
+		return r.Unmarshal
+	case "RunLengthChunk":
+		r := new(rtcp.RunLengthChunk)
+		return r.Unmarshal
+	case "StatusVectorChunk":
+		r := new(rtcp.StatusVectorChunk)
+		return r.Unmarshal
+	case "RecvDelta":
+		r := new(rtcp.RecvDelta)
+		return r.Unmarshal
+	}
+	return nil
+}
+
+var c01SubNames = []string{"Header", "ReceptionReport", "SourceDescriptionChunk", "SourceDescriptionItem", "RunLengthChunk", "StatusVectorChunk", "RecvDelta"}
+
 var subC01Reuse = harness.NewSub("c01-decode-into-used-receiver-robust", func(c c01Reuse, _ harness.Dialect) error {
-	recv := conv.New(c.Kind)
-	_ = harness.Guard(func() error { _ = recv.Unmarshal(exactCopy(c.A)); return nil })
+	var dec func(b []byte) error
+	name := c.Sub
+	if c.Sub != "" {
+		dec = c01SubDecoder(c.Sub)
+		if dec == nil {
+			return fmt.Errorf("unknown sub-decoder %q", c.Sub)
+		}
+	} else {
+		recv := conv.New(c.Kind)
+		dec = recv.Unmarshal
+		name = conv.GoType(c.Kind)
+	}
+	_ = harness.Guard(func() error { _ = dec(exactCopy(c.A)); return nil })
 	a0 := heapAllocated()
-	perr := harness.Guard(func() error { _ = recv.Unmarshal(exactCopy(c.B)); return nil })
+	perr := harness.Guard(func() error { _ = dec(exactCopy(c.B)); return nil })
 	a1 := heapAllocated()
 	if perr != nil {
-		return fmt.Errorf("%s.Unmarshal(B) into a receiver that decoded A before: %v\nA: %s\nB: %s", conv.GoType(c.Kind), perr, hexs(c.A), hexs(c.B))
+		return fmt.Errorf("%s.Unmarshal(B) into a receiver that decoded A before: %v\nA: %s\nB: %s", name, perr, hexs(c.A), hexs(c.B))
 	}
 	if bound := uint64(c01FixedBytes + c01PerOctet*len(c.B)); a1-a0 > bound {
-		return fmt.Errorf("%s.Unmarshal(B) into a used receiver allocated %d bytes (bound %d)", conv.GoType(c.Kind), a1-a0, bound)
+		return fmt.Errorf("%s.Unmarshal(B) into a used receiver allocated %d bytes (bound %d)", name, a1-a0, bound)
 	}
 	return nil
 })
@@ -427,6 +469,9 @@ func TestC01(t *testing.T) {
 
 	// (1b) decoders called on a receiver that was used before
 	testC01Reuse(t)
+	if harness.Cfg.Shard == 0 {
+		testC01SubReuse(t)
+	}
 
 	// (2) generated hostile inputs
 	harness.RapidCheck(t, harness.Scale(5000, 40000), 1, func(rt *rapid.T) {
@@ -487,6 +532,30 @@ func testC01Reuse(t *testing.T) {
 		harness.Record(subC01Reuse.Name, c, true, "reuse:"+string(k))
 		subC01Reuse.Check(rt, c)
 	})
+}
+
+// testC01SubReuse: every ordered pair of short inputs into one receiver of each sub-decoder
+// (the chunk decoders take exactly two octets: all pairs of a representative set of words).
+func testC01SubReuse(t *testing.T) {
+	words := []uint16{0x0000, 0x0001, 0x1FFF, 0x2001, 0x4005, 0x6003, 0x8000, 0xA55A, 0xBFFF, 0xC000, 0xE41B, 0xFFFF}
+	var n int64
+	for _, name := range c01SubNames {
+		var inputs [][]byte
+		for _, w := range words {
+			inputs = append(inputs, []byte{byte(w >> 8), byte(w)})
+		}
+		inputs = append(inputs, nil, []byte{0x80}, []byte{0x81, 200, 0, 1}, []byte{1, 2, 3, 4, 1, 3, 'a', 'b', 'c', 0, 0, 0}, []byte{1, 2, 3, 4, 0},
+			append([]byte{9, 9, 9, 9, 0xAA, 1, 2, 3}, make([]byte, 16)...), []byte{2, 5, 'h', 'e', 'l', 'l', 'o'}, []byte{1, 0})
+		for _, a := range inputs {
+			for _, b := range inputs {
+				subC01Reuse.Check(t, c01Reuse{Sub: name, A: a, B: b})
+				n++
+			}
+		}
+	}
+	harness.Eval(subC01Reuse.Name+"/sub-decoders", n)
+	harness.NonTrivialDistinct(n)
+	harness.Exhaustive(subC01Reuse.Name+"/sub-decoders", "7 exported sub-decoders x all ordered pairs of 20 representative inputs decoded into one receiver")
 }
 
 func c01ClassifyRun(ep entryPoint, b []byte) string {
